@@ -122,6 +122,9 @@ fn all_kinds() -> Vec<Kind> {
     let mut v = SHIPPED.to_vec();
     v.push(Kind::GaArchive);
     v.push(Kind::EsArchive);
+    v.push(Kind::DeVariants);
+    v.push(Kind::GaVariants);
+    v.push(Kind::GaVariants);
     v
 }
 
@@ -133,7 +136,8 @@ pub fn run_c05(tier: Tier, seed: u64, known: &KnownFindings) -> CheckReport {
     let w = TemplateWorld { prop: "C05", world_name: "templates-c05", kinds: all_kinds(), penalty: 0.4, faults: FaultMix::None, max_iters: (12, 40), evaluations_term: true, log: true, key_steps: &[] };
     let b = run_batch(&w, &mk("C05", "templates-sequential", seed, tier, tier.pick(60_000, 1_500_000), known));
     let bp = run_batch(&crate::checks::c08::SeqVsPar { prop: "C05", name: "seq-vs-par-c05" }, &mk("C05", "templates-parallel-evaluator", seed, tier, tier.pick(1_500, 60_000), known));
-    let mut r = report("C05", tier, seed, "one case = (template, swarm-style valid parameters incl. boundary values, problem instance with or without penalty regions, termination, seed); after EVERY child execution of every sequential block, at every nesting level, every evaluated individual in the population stack (all scope levels), best-so-far, elitist archive, personal bests, global best and molecule memories must carry exactly F(solution) (bit equality); non-trivial = at least one step executed; distinct = distinct (component-kind sequence, objective calls, result, final state) fingerprints. templates-parallel-evaluator: the same audit while objectives are written by the simulated workers of problems::evaluate::Parallel under seeded schedules", vec![b, bp], &["problems::evaluate::Parallel on the simulated pool (parallel batch)"]);
+    let bi = run_batch(&crate::checks::indiv::IndividualHistories, &mk("C05", "individual-histories", seed, tier, tier.pick(300_000, 5_000_000), known));
+    let mut r = report("C05", tier, seed, "individual-histories: one case = a seeded history of <= 80 Individual-level operations (construct evaluated / unevaluated, evaluate_with, set_objective, write through solution_mut, solution_mut without writing, clone, clone_from directly and through Vec::clone_from, clone_from_slice and Option::clone_from, move between collections, as_solutions_mut, into_solutions + into_individuals) against an (solution, Option<objective>) model audited after every operation. templates: one case = (template, swarm-style valid parameters incl. boundary values, problem instance with or without penalty regions, termination, seed); after EVERY child execution of every sequential block, at every nesting level, every evaluated individual in the population stack (all scope levels), best-so-far, elitist archive, personal bests, global best and molecule memories must carry exactly F(solution) (bit equality); non-trivial = at least one step executed; distinct = distinct (component-kind sequence, objective calls, result, final state) fingerprints. templates-parallel-evaluator: the same audit while objectives are written by the simulated workers of problems::evaluate::Parallel under seeded schedules", vec![b, bp, bi], &["problems::evaluate::Parallel on the simulated pool (parallel batch)"]);
     r.stubbed_components.push("rayon (simulated worker pool on shuttle threads) in the parallel batch".into());
     r
 }
@@ -289,5 +293,6 @@ pub fn run_c19(tier: Tier, seed: u64, known: &KnownFindings) -> CheckReport {
 pub fn run_c20(tier: Tier, seed: u64, known: &KnownFindings) -> CheckReport {
     let w = TemplateWorld { prop: "C20", world_name: "templates-c20", kinds: vec![Kind::Cro], penalty: 0.0, faults: FaultMix::None, max_iters: (60, 300), evaluations_term: false, log: false, key_steps: &["OnWallIneffectiveCollisionUpdate", "DecompositionUpdate", "IntermolecularIneffectiveCollisionUpdate", "SynthesisUpdate"] };
     let b = run_batch(&w, &mk("C20", "cro-runs", seed, tier, tier.pick(100_000, 2_000_000), known));
-    report("C20", tier, seed, "CRO template runs over its nine parameters (buffer 0, initial KE 0, alpha 0, large beta, mole_coll in {0,1} included), up to 300 iterations; around every reaction update: sum of objective values + kinetic energies + buffer unchanged within 1e-9 relative, no negative kinetic energy or buffer, one molecule record per individual, uninvolved (individual, molecule) pairs unchanged and in order, exactly two populations consumed; non-trivial = at least one reaction update executed", vec![b], &[])
+    let bp = run_batch(&crate::checks::prepared::Reactions, &mk("C20", "prepared-reactions", seed, tier, tier.pick(400_000, 6_000_000), known));
+    report("C20", tier, seed, "prepared-reactions: one case = one elementary-reaction update executed on a hand-built state (main population of 1..6 molecules with objective values and kinetic energies from grids, equal individuals allowed, reactants at chosen indices incl. the second before the first, products whose energies sit just below / at / just above the reactants' total, buffer in {0, 0.01, 1, 100}); same ledger, sign, alignment, pairing and stack oracle. cro-runs: CRO template runs over its nine parameters (buffer 0, initial KE 0, alpha 0, large beta, mole_coll in {0,1} included), up to 300 iterations; around every reaction update: sum of objective values + kinetic energies + buffer unchanged within 1e-9 relative, no negative kinetic energy or buffer, one molecule record per individual, uninvolved (individual, molecule) pairs unchanged and in order, exactly two populations consumed; non-trivial = at least one reaction update executed", vec![b, bp], &[])
 }
